@@ -13,10 +13,11 @@ use std::collections::{BTreeMap, BTreeSet};
 
 const HDR: &str = "(datatype E (A) (B) (C) (D) (K1) (K2))\n(sort VE (Vec E))\n(sort SE (Set E))\n(sort MSE (MultiSet E))\n(sort PE (Pair E E))\n(sort ME (Map E E))\n(sort VS (Vec SE))\n\
 (constructor HV (VE) E)\n(constructor HS (SE) E)\n(constructor HM (MSE) E)\n(constructor HP (PE) E)\n(constructor HMap (ME) E)\n(constructor HVS (VS) E)\n\
-(relation SeenS (E))\n(relation SeenV (E))\n(relation SeenM (E))\n(ruleset r)\n\
+(relation SeenS (E))\n(relation SeenV (E))\n(relation SeenM (E))\n(relation SeenN (E))\n(ruleset r)\n\
 (rule ((= h (HS s)) (set-contains s (A))) ((SeenS h)) :ruleset r)\n\
 (rule ((= h (HV v)) (vec-contains v (A))) ((SeenV h)) :ruleset r)\n\
 (rule ((= h (HM m)) (multiset-contains m (A))) ((SeenM h)) :ruleset r)\n\
+(rule ((= h (HVS v)) (> (vec-length v) 0) (= s (vec-get v 0)) (set-contains s (A))) ((SeenN h)) :ruleset r)\n\
 (A)\n(B)\n(C)\n(D)\n(K1)\n(K2)\n";
 
 const ELS: [&str; 4] = ["(A)", "(B)", "(C)", "(D)"];
@@ -48,7 +49,7 @@ impl Cont {
         }
     }
     fn kind(&self) -> &'static str { match self { Cont::Vec(_) => "HV", Cont::Set(_) => "HS", Cont::MSet(_) => "HM", Cont::Pair(..) => "HP", Cont::Map(_) => "HMap", Cont::VecSet(_) => "HVS" } }
-    fn contains_a(&self, f: &[usize]) -> bool { match self { Cont::Vec(v) | Cont::Set(v) | Cont::MSet(v) => v.iter().any(|i| f[*i] == f[0]), _ => false } }
+    fn contains_a(&self, f: &[usize]) -> bool { match self { Cont::Vec(v) | Cont::Set(v) | Cont::MSet(v) => v.iter().any(|i| f[*i] == f[0]), Cont::VecSet(vs) => vs.first().map_or(false, |s| s.iter().any(|i| f[*i] == f[0])), _ => false } }
 }
 
 fn gen_cont(rng: &mut Rng) -> Cont {
@@ -153,7 +154,7 @@ fn cases(rep: &mut Report, rng: &mut Rng, n: usize, big: Option<(&EGraph, usize,
                     if got != want { bad = Some((ename, format!("(= {} {}) is {got}, expected {want}", holders[i].text(), holders[j].text()))); }
                 } }
                 // rule marks
-                for h in &holders { let rel = match h { Cont::Vec(_) => "SeenV", Cont::Set(_) => "SeenS", Cont::MSet(_) => "SeenM", _ => continue };
+                for h in &holders { let rel = match h { Cont::Vec(_) => "SeenV", Cont::Set(_) => "SeenS", Cont::MSet(_) => "SeenM", Cont::VecSet(_) => "SeenN", _ => continue };
                     let want = marked.contains(&h.norm(&f));
                     let got = engine::run(eg, &format!("(check ({rel} {}))", h.text())).is_ok();
                     if got != want { bad = Some((ename, format!("({rel} {}) is {got}, expected {want} (rule matching through the container)", h.text()))); } }
